@@ -1,9 +1,12 @@
 package checks
 
 import (
+	"reflect"
+
 	"bytes"
 	"encoding/json"
 	"fmt"
+	cose "github.com/veraison/go-cose"
 	"testing"
 
 	"github.com/veraison/psatoken"
@@ -239,6 +242,151 @@ func TestC08_Gates(t *testing.T) {
 		st.Case(key, cls...)
 		if key != "" && st.WantSample() {
 			st.Sample(map[string]any{"claims": m.ClassVector(), "offending": fmt.Sprint(m.Offending()), "alg": icose.AlgName(alg)})
+		}
+	})
+}
+
+// ---- gates in context: stale Evidence state, in-place (in)validation ----
+
+func c08Prior(t *rapid.T, ev *psatoken.Evidence, prior string, kp keyPair) {
+	seed, _ := baseValid(P2, 1).BuildLiteral()
+	switch prior {
+	case "fresh":
+	case "signed":
+		ev.Claims = seed
+		if _, err := ev.Sign(kp.Signer()); err != nil {
+			t.Fatalf("VERIF-INFRA: %v", err)
+		}
+	case "vsigned":
+		ev.Claims = seed
+		if _, err := ev.ValidateAndSign(keyFor(icose.EdDSA, 3).Signer()); err != nil {
+			t.Fatalf("VERIF-INFRA: %v", err)
+		}
+	case "decoded":
+		tok, _ := icose.SignedToken(kp.Alg, kp.Priv, baseValid(P1, 1).WireBytes())
+		if err := ev.UnmarshalCOSE(tok); err != nil {
+			t.Fatalf("VERIF-INFRA: %v", err)
+		}
+	case "failed-sign":
+		ev.Claims = seed
+		if _, err := ev.Sign(&faultySigner{alg: cose.Algorithm(kp.Alg), mode: "error"}); err == nil {
+			t.Fatalf("VERIF-INFRA: faulty signer signed")
+		}
+	case "failed-decode":
+		_ = ev.UnmarshalCOSE([]byte{0xd2, 0x84, 0x40})
+	}
+}
+
+// overwriteInPlace makes the object behind dst hold the content of src
+// (same dynamic type), keeping dst's identity.
+func overwriteInPlace(dst, src psatoken.IClaims) bool {
+	d, s := reflect.ValueOf(dst), reflect.ValueOf(src)
+	if d.Type() != s.Type() || d.Kind() != reflect.Pointer {
+		return false
+	}
+	d.Elem().Set(s.Elem())
+	return true
+}
+
+func TestC08_GatesInContext(t *testing.T) {
+	st := NewStats("C08", "TestC08_GatesInContext", "rapid: the gates exercised where stale state exists. (a) ValidateAndSign vs Sign on two Evidence objects brought into the same prior state {fresh, after Sign, after ValidateAndSign, after UnmarshalCOSE, after a failed sign, after a failed decode}: they succeed/fail together when the claims are valid, ValidateAndSign fails iff Validate() fails, payload and protected header equal; (b) a claims object is attached with SetClaims (or validated/encoded once) and then overwritten IN PLACE with an invalid (or, from invalid, a valid) claims-set of the same type: SetClaims / ValidateAndEncode CBOR+JSON / ValidateAndSign called again must follow the CURRENT content: fail and emit nothing iff Validate() fails now; (c) every gate called twice in a row gives the same outcome. Non-trivial = prior state not fresh, or an in-place flip of validity; distinct = prior + flip + class vector")
+	st.Require = []string{"prior=signed", "prior=decoded", "prior=failed-sign", "flip=valid->invalid", "flip=invalid->valid"}
+	defer st.Flush(t)
+	rapid.Check(t, func(t *rapid.T) {
+		p := drawProf(t)
+		alg := rapid.SampledFrom(fastAlgs).Draw(t, "alg")
+		kp := keyFor(alg, rapid.IntRange(0, 3).Draw(t, "key"))
+		prior := rapid.SampledFrom([]string{"fresh", "signed", "vsigned", "decoded", "failed-sign", "failed-decode"}).Draw(t, "prior")
+		m := GenAny(t, p)
+		if genBool.Draw(t, "forceValid") {
+			m = GenValid(t, p, false)
+		}
+		c, ok := m.BuildLiteral()
+		if !ok {
+			t.Skip("unrepresentable")
+		}
+		valid := c.Validate() == nil
+		// (a) same prior state, validating vs non-validating signer
+		evS, evV := &psatoken.Evidence{}, &psatoken.Evidence{}
+		c08Prior(t, evS, prior, kp)
+		c08Prior(t, evV, prior, kp)
+		evS.Claims, evV.Claims = c, c
+		plainTok, plainErr := evS.Sign(kp.Signer())
+		tok, err := evV.ValidateAndSign(kp.Signer())
+		if (err == nil) != (valid && plainErr == nil) {
+			t.Fatalf("C08 violated: on an Evidence in state %q ValidateAndSign err=%v while Validate() ok=%v and Sign err=%v\n [%s]", prior, err, valid, plainErr, m.ClassVector())
+		}
+		if err != nil && len(tok) != 0 {
+			t.Fatalf("C08 violated: ValidateAndSign (state %q) returned bytes together with an error", prior)
+		}
+		if err == nil {
+			a, okA := icose.Split(tok)
+			b, okB := icose.Split(plainTok)
+			if !okA || !okB || !bytes.Equal(a.Payload, b.Payload) || !bytes.Equal(a.Protected, b.Protected) {
+				t.Fatalf("C08 violated: ValidateAndSign and Sign (state %q) produce different payload / protected header", prior)
+			}
+			if evV.Verify(kp.Pub) != nil {
+				t.Fatalf("C08 violated: Evidence does not verify after a successful ValidateAndSign in state %q", prior)
+			}
+		} else if evV.Verify(kp.Pub) == nil {
+			t.Fatalf("C08 violated: Evidence in state %q verifies after a FAILED ValidateAndSign", prior)
+		}
+		// (c) repeat
+		_, err2 := evV.ValidateAndSign(kp.Signer())
+		if (err2 == nil) != (err == nil) {
+			t.Fatalf("C08 violated: a second ValidateAndSign gives a different outcome (%v then %v)", err, err2)
+		}
+		// (b) in-place flip
+		m2 := GenAny(t, p)
+		if !valid || genBool.Draw(t, "flipToValid") {
+			m2 = GenValid(t, p, false)
+		}
+		c2, ok := m2.BuildLiteral()
+		flip := ""
+		if ok {
+			ev := &psatoken.Evidence{}
+			attached := ev.SetClaims(c) == nil
+			_, _ = psatoken.ValidateAndEncodeClaimsToCBOR(c)
+			if attached {
+				_, _ = ev.ValidateAndSign(kp.Signer())
+			}
+			if overwriteInPlace(c, c2) {
+				now := c.Validate() == nil
+				if valid != now {
+					flip = fmt.Sprintf("flip=%s->%s", map[bool]string{true: "valid", false: "invalid"}[valid], map[bool]string{true: "valid", false: "invalid"}[now])
+				}
+				if attached {
+					tk, e := ev.ValidateAndSign(kp.Signer())
+					if (e == nil) != now || (e != nil && len(tk) != 0) {
+						t.Fatalf("C08 violated: claims attached with SetClaims were changed in place (now valid=%v) but ValidateAndSign err=%v, %d bytes\n before [%s]\n now    [%s]", now, e, len(tk), m.ClassVector(), m2.ClassVector())
+					}
+				}
+				if b, e := psatoken.ValidateAndEncodeClaimsToCBOR(c); (e == nil) != now || (e != nil && len(b) != 0) {
+					t.Fatalf("C08 violated: ValidateAndEncodeClaimsToCBOR after an in-place change (now valid=%v): err=%v, %d bytes", now, e, len(b))
+				}
+				if b, e := psatoken.ValidateAndEncodeClaimsToJSON(c); (e == nil) != now || (e != nil && len(b) != 0) {
+					t.Fatalf("C08 violated: ValidateAndEncodeClaimsToJSON after an in-place change (now valid=%v): err=%v, %d bytes", now, e, len(b))
+				}
+				ev3 := &psatoken.Evidence{}
+				if e := ev3.SetClaims(c); (e == nil) != now || (e != nil && ev3.Claims != nil) {
+					t.Fatalf("C08 violated: SetClaims after an in-place change (now valid=%v): err=%v", now, e)
+				}
+				if e := ev.SetClaims(c); (e == nil) != now {
+					t.Fatalf("C08 violated: re-attaching the same (changed) object: SetClaims err=%v but valid=%v", e, now)
+				}
+			}
+		}
+		cls := []string{"prior=" + prior}
+		if flip != "" {
+			cls = append(cls, flip)
+		}
+		key := ""
+		if prior != "fresh" || flip != "" {
+			key = prior + "|" + flip + "|" + m.ClassVector()
+		}
+		st.Case(key, cls...)
+		if key != "" && st.WantSample() {
+			st.Sample(map[string]any{"prior": prior, "flip": flip, "claims": m.ClassVector()})
 		}
 	})
 }
